@@ -396,8 +396,60 @@ pub fn pick_fcap(rng: &mut Rng, mut count: impl FnMut(&str)) -> u64 {
 }
 
 /// `cl deliver <hex>` of `text` or of another spelling of it
-pub fn deliver_line(rng: &mut Rng, text: &str, count: impl FnMut(&str)) -> String {
-	format!("cl deliver {}", crate::common::hexs(&maybe_respell(rng, text, count)))
+/// One delivery in four arrives as a binary frame (`ReceivedMessage::Bytes`, trailing word `bin`): the same bytes, but
+/// the transport has not checked that they are UTF-8.
+pub fn deliver_line(rng: &mut Rng, text: &str, mut count: impl FnMut(&str)) -> String {
+	let bin = rng.chance(1, 4);
+	count(if bin { "frame.binary" } else { "frame.text" });
+	format!("cl deliver {}{}", crate::common::hexs(&maybe_respell(rng, text, count)), if bin { " bin" } else { "" })
+}
+
+/// Where a byte-level corruption goes: a legal message of every kind, for the given request id (JSON text) and
+/// subscription id (JSON text of a string or a number), with exactly one string value to be damaged.
+pub const UTF8_PLACES: usize = 9;
+
+/// A well-formed message (`place` in 0..UTF8_PLACES) in which the bytes of one character inside a JSON string value
+/// are replaced by a sequence that is no UTF-8 (a byte 0xFF, a truncated multi-byte sequence, an overlong form, a lone
+/// continuation byte, an encoded surrogate, a five-byte form).  Such bytes can only arrive in a binary frame; they are
+/// no JSON text, so nothing may be completed or delivered from them — least of all with a "repaired" value.
+pub fn utf8_corruption(rng: &mut Rng, place: usize, id: &str, sid: &str, mut count: impl FnMut(&str)) -> Vec<u8> {
+	const MARK: char = '\u{e9}';
+	let sid_str = if sid.starts_with('"') { format!("\"{}{MARK}\"", sid.trim_matches('"')) } else { format!("\"{MARK}{sid}\"") };
+	let id_str = if id.starts_with('"') { format!("\"{}{MARK}\"", id.trim_matches('"')) } else { format!("\"{id}{MARK}\"") };
+	let (name, template) = match place {
+		0 => ("utf8.in.result", format!("{{\"jsonrpc\":\"2.0\",\"id\":{id},\"result\":\"caf{MARK}!\"}}")),
+		1 => ("utf8.in.error-message", format!("{{\"jsonrpc\":\"2.0\",\"id\":{id},\"error\":{{\"code\":-32000,\"message\":\"caf{MARK}!\"}}}}")),
+		2 => ("utf8.in.error-data", format!("{{\"jsonrpc\":\"2.0\",\"id\":{id},\"error\":{{\"code\":1,\"message\":\"m\",\"data\":[\"caf{MARK}!\"]}}}}")),
+		3 => ("utf8.in.id-string", format!("{{\"jsonrpc\":\"2.0\",\"id\":{id_str},\"result\":1}}")),
+		4 => ("utf8.in.method", format!("{{\"jsonrpc\":\"2.0\",\"method\":\"sub{MARK}\",\"params\":{{\"subscription\":{sid},\"result\":1}}}}")),
+		5 => ("utf8.in.subscription-id", format!("{{\"jsonrpc\":\"2.0\",\"method\":\"sub\",\"params\":{{\"subscription\":{sid_str},\"result\":1}}}}")),
+		6 => ("utf8.in.batch-reply", format!("[{{\"jsonrpc\":\"2.0\",\"id\":{id},\"result\":\"caf{MARK}!\"}}]")),
+		7 => ("utf8.in.notification-payload", format!("{{\"jsonrpc\":\"2.0\",\"method\":\"sub\",\"params\":{{\"subscription\":{sid},\"result\":\"caf{MARK}!\"}}}}")),
+		_ => ("utf8.in.close-notification", format!("{{\"jsonrpc\":\"2.0\",\"method\":\"sub\",\"params\":{{\"subscription\":{sid},\"error\":\"caf{MARK}!\"}}}}")),
+	};
+	count(name);
+	utf8_damage(rng, &template, count)
+}
+
+/// `template` with the bytes of its (single) `é` replaced by an invalid sequence
+pub fn utf8_damage(rng: &mut Rng, template: &str, mut count: impl FnMut(&str)) -> Vec<u8> {
+	let (how, bad): (&str, &[u8]) = match rng.below(7) {
+		0 => ("utf8.byte-ff", &[0xFF]),
+		1 => ("utf8.truncated-2", &[0xC3]),
+		2 => ("utf8.truncated-3", &[0xE2, 0x82]),
+		3 => ("utf8.overlong", &[0xC0, 0xAF]),
+		4 => ("utf8.lone-continuation", &[0xA9]),
+		5 => ("utf8.surrogate", &[0xED, 0xA0, 0x80]),
+		_ => ("utf8.five-byte", &[0xF8, 0x88, 0x80, 0x80, 0x80]),
+	};
+	count(how);
+	let bytes = template.as_bytes();
+	let at = bytes.windows(2).position(|w| w == [0xC3, 0xA9]).expect("template has the mark");
+	let mut out = bytes[..at].to_vec();
+	out.extend_from_slice(bad);
+	out.extend_from_slice(&bytes[at + 2..]);
+	debug_assert!(std::str::from_utf8(&out).is_err());
+	out
 }
 
 // ---------------------------------------------------------------------------------------------
@@ -473,7 +525,7 @@ impl InFlight {
 
 /// the `for=<op>` tag of a `cl deliver <hex> for=<op>` line: the operation the mock server made this reply for
 pub fn reply_tag(words: &[&str]) -> Option<usize> {
-	words.get(3).and_then(|t| t.strip_prefix("for=")).and_then(|n| n.parse().ok())
+	words.iter().skip(3).find_map(|t| t.strip_prefix("for=")).and_then(|n| n.parse().ok())
 }
 
 /// Does the incoming text consist of an array with at least one response-shaped element?  The read task hands all
